@@ -617,6 +617,12 @@ class Nullness:
             if isinstance(v, _ast.Name) and self._module_object(v, n.frame):
                 # a canned object of the module (bad_sequence = Reply(...))
                 return self._set(st, '$ret', 'obj')
+            if isinstance(v, _ast.Name):
+                # a local whose none-ness a test on this path has settled
+                from ..facts import path_of as _po
+                known = self._get(st, _po(v, n.frame))
+                if known in ('none', 'obj'):
+                    return self._set(st, '$ret', known)
             if isinstance(v, _ast.Tuple) and isinstance(
                     self.assign_of_call[id(n.frame.call)][0], list):
                 return self._set(st, '$ret', ('t', tuple(
@@ -670,6 +676,7 @@ class Nullness:
             r = self._eval(n.ast, n.frame, st)
             if r is not None and r != (label == 'T'):
                 return 'infeasible'
+            learnt = []
             for pol, k in atoms_of_test(n.ast, label == 'T', n.frame):
                 for var, val in list(st):
                     if var.startswith('$') or val not in ('none', 'obj'):
@@ -681,6 +688,17 @@ class Nullness:
                         # truthiness: None is falsy
                         if val == 'none' and pol:
                             return 'infeasible'
+                # what the test itself says about a plain local
+                import re as _re
+                if k.endswith(' is None') and _re.fullmatch(
+                        r'[A-Za-z_]\w*#\d+', k[:-len(' is None')]):
+                    learnt.append((k[:-len(' is None')],
+                                   'none' if pol else 'obj'))
+                elif pol and _re.fullmatch(r'[A-Za-z_]\w*#\d+', k):
+                    learnt.append((k, 'obj'))
+            for var, val in learnt:
+                if self._get(st, var) is None:
+                    st = self._set(st, var, val)
         return st
 
 
